@@ -3,6 +3,7 @@
 package run
 
 import (
+	"bytes"
 	"encoding/json"
 	"fmt"
 	"math/big"
@@ -30,6 +31,23 @@ type Transfer struct {
 	Spec     *spec.Spec        `json:"spec,omitempty"`
 	Memo     string            `json:"memo"`
 	RawData  []byte            `json:"raw_data,omitempty"` // packet data verbatim if set
+}
+
+// EffectiveReceiver is the receiver string the packet carries ("" if the data is not a JSON
+// object with a string receiver).
+func (t Transfer) EffectiveReceiver() string {
+	if t.RawData == nil {
+		return t.Receiver
+	}
+	var d struct {
+		Receiver any `json:"receiver"`
+	}
+	// ICS-20 decodes the first JSON value of the data and ignores what follows.
+	if err := json.NewDecoder(bytes.NewReader(t.RawData)).Decode(&d); err != nil {
+		return ""
+	}
+	s, _ := d.Receiver.(string)
+	return s
 }
 
 // PacketDenom is the denom string carried in the packet.
